@@ -15,3 +15,18 @@ func init() {
 		return "ok\t" + escListE(file.Profiles[0].Attachments) + "\t" + esc(file.Profiles[0].GetAttachments()) + "\t" + encodeRules(file.Preamble)
 	}
 }
+
+func init() {
+	// resolvedef <attachments;...> <rule> <rule> ...  ->  ok <attachments> <GetAttachments()> | err
+	// The same, starting from aa.DefaultTunables() as the userspace builder does: the given rules come after the built-in
+	// tunables, may refer to them and may append to them.  Several files are resolved one after the other in one process.
+	suites["resolvedef"] = func(f []string) string {
+		file := aa.DefaultTunables()
+		file.Preamble = append(file.Preamble, decodeRules(f[1:])...)
+		file.Profiles = []*aa.Profile{{Header: aa.Header{Name: "p", Attachments: sl(f[0])}}}
+		if err := file.Resolve(); err != nil {
+			return "err"
+		}
+		return "ok\t" + escListE(file.Profiles[0].Attachments) + "\t" + esc(file.Profiles[0].GetAttachments())
+	}
+}
